@@ -20,9 +20,12 @@ package limiters
 
 import (
 	"context"
+	"errors"
 	"sync"
 	"time"
 )
+
+var errTooManyBuckets = errors.New("limiters: too many buckets in use")
 
 // BucketSet combines a group of Ls into a single key-indexed structure.
 // Basically, each unique key gets its own counter. The main use case for
@@ -125,6 +128,10 @@ func (r *BucketSet) Take(key string) bool {
 	}
 
 	bucket := r.take(key)
+	if bucket == nil {
+		// Too many live buckets: refuse instead of crashing on a nil limiter.
+		return false
+	}
 	return bucket.Take()
 }
 
@@ -149,5 +156,8 @@ func (r *BucketSet) TakeContext(ctx context.Context, key string) error {
 	}
 
 	bucket := r.take(key)
+	if bucket == nil {
+		return errTooManyBuckets
+	}
 	return bucket.TakeContext(ctx)
 }
